@@ -209,6 +209,26 @@ pub fn library_clashes(oracle: Oracle) -> Box<dyn Space> {
     space("G-PROG/library-clashes", 8, 1, desc, Box::new(gen), oracle)
 }
 
+/// Calls of names that are not declared, spelled like declared ones up to letter case (a
+/// renaming must not change what they resolve to).
+pub fn undeclared_calls(oracle: Oracle) -> Box<dyn Space> {
+    const NAMES: [&str; 8] = ["u", "cX", "Cx", "H", "g1x", "G1", "f1", "Rx"];
+    let desc = json!({"space": "G-PROG calls of undeclared names", "names": NAMES, "forms": ["gate call", "gate call with parameters", "subroutine call"], "prelude": true});
+    let gen = move |i: u64| -> Option<ProgCase> {
+        let name = NAMES[(i / 3) as usize].to_string();
+        let st = match i % 3 {
+            0 => Stmt::GateCall { mods: vec![], name: name.clone(), args: None, operands: vec![crate::model::prog::Operand::Id("r".into()), crate::model::prog::Operand::Indexed("q".into(), vec![Index::List(vec![IndexItem::E(int(0))])])] },
+            1 => Stmt::GateCall { mods: vec![Modifier::Inv], name: name.clone(), args: Some(vec![int(1), int(2), int(3)]), operands: vec![crate::model::prog::Operand::Id("r".into())] },
+            _ => Stmt::ExprStmt(Expr::Call(name.clone(), vec![id("a"), int(2)])),
+        };
+        let mut stmts = prelude();
+        stmts.push(st);
+        stmts.push(Stmt::Reset(crate::model::prog::Operand::Id("r".into())));
+        Some(ProgCase { stmts, tag: format!("undeclared-call[{}]/{}", i % 3, name) })
+    };
+    space("G-PROG/undeclared-calls/prelude", NAMES.len() as u64 * 3, 4, desc, Box::new(gen), oracle)
+}
+
 fn rename_decl(st: &mut Stmt, pos: usize) {
     let sfx = format!("_{}", pos);
     match st {
